@@ -53,7 +53,7 @@ CHECKS = {
             {"pkg": "Havoc/pkg/service", "entries": ["H_c16_service_close"]},
             {"pkg": "Havoc/cmd/server", "with": SRV_WITH, "entries": ["H_c16_listener_steps"], "no_native_witness": True, "no_native_replay": True},
         ],
-        "bounds": "service registry: 1..3 connections, 0..3 agent types and 0..3 listeners with arbitrary ownership, any one connection closing; built-in registry: 1..3 add/remove operations over two names and the SMB and External kinds.",
+        "bounds": "service registry: 1..3 connections, 0..3 agent types and 0..3 listeners with arbitrary ownership, any one connection closing; built-in registry: 1..3 (thorough 1..5) add/remove operations over two names and the SMB and External kinds plus External listeners registered by a service connection (ListenerServiceExc2Add).",
         "outside": "HTTP listener start/stop/edit (gin engine, http.Server), ExC2 endpoints registered by a service connection (not removed on disconnect: see DESIGN.md), failed starts",
         "min_completed": 3,
     },
